@@ -356,12 +356,19 @@ pub struct CParams {
     pub formats: bool,
 }
 
-pub const MORE_FORMATS: [&str; 7] = ["cbor-packed", "cbor-selfdesc", "cbor-reader", "cbor-value", "json-value", "json-pretty-reader", "json-bytes"];
+pub const MORE_FORMATS: [&str; 8] = ["flat", "cbor-packed", "cbor-selfdesc", "cbor-reader", "cbor-value", "json-value", "json-pretty-reader", "json-bytes"];
 
 pub fn sweep<F: Fl>(job: &Job, out: &mut Out) {
     let p: CParams = serde_json::from_value(job.params.clone()).expect("csweep params");
     let prop = job.property.as_str();
     if p.formats {
+        // the flat format must itself be sound: a plain tuple of vectors goes through it unchanged
+        {
+            let v: (Vec<(u8, i8)>, Vec<(u8, u8, i8)>, Option<String>) = (vec![(1, -2), (3, 4)], vec![(1, 3, 5)], Some("x".into()));
+            let t = crate::flatfmt::to_tokens(&v).expect("flat: serialise");
+            let back: (Vec<(u8, i8)>, Vec<(u8, u8, i8)>, Option<String>) = crate::flatfmt::from_tokens(&t).expect("flat: deserialise");
+            hassert!(back == v, "flat format does not round-trip a plain tuple");
+        }
         // every other entry point / encoding of the two serde implementations,
         // one hash seed and insertion order per shape
         let all_shapes = if p.large > 0 { crate::gsweep::large_graphs(p.large).into_iter().map(|(_, n, c)| (n, c)).collect::<Vec<_>>() } else { shapes::<F>(p.n, p.max_l).into_iter().map(|c| (p.n, c)).collect() };
